@@ -26,7 +26,8 @@ EXPLANATION = (
     'paths; (BND.1) the file buffer is size+1 bytes and terminated at size; (BND.2) scanner typestate: the '
     'quoted-string scan and the whitespace/comment skipper never advance past a byte that may be the '
     'terminating NUL, and the decoder\'s buffer is the scanned length plus one with at most one byte stored '
-    'per byte consumed.  Termination and leaks on error exits are not decided.')
+    'per byte consumed; (BND.3) in the decoding pass an escape skips at most the backslash, the escaped '
+    'character and the bytes proven to be hex digits.  Termination and leaks on error exits are not decided.')
 ASSUMPTIONS = ['clang 14 CFG; setjmp/longjmp modelled through the call graph (clang builds no longjmp edges)',
                'allocation failure is fatal (xmalloc)']
 
@@ -349,7 +350,130 @@ def bounds(P, R):
     R.floor('C14.BND.2', 6)
 
 
+def decoder_advance(P, R):
+    """BND.3: in the second (decoding) pass over a quoted string, an escape consumes the backslash and the
+    escaped character; every further byte it skips must have been tested to be a hex digit (hence neither
+    the closing quote nor the NUL).  Total advance on the escape path <= 1 + number of bytes proven hex."""
+    f = P.need_fn('conf_parse_string')
+    # the decode loop: the loop whose body stores into the output buffer; its scan variable
+    endv = None
+    for b in f.blocks.values():
+        c = (b.get('term') or {}).get('cond')
+        if c is not None:
+            from ..model import rel
+            l, op, rr = rel(c, True)
+            if isinstance(l, dict) and l.get('k') == 'un' and l['op'] == '*' and is_var(l['e']) and const_of(rr) == 92 and op == '==':
+                endv = l['e']['name']
+    if endv is None:
+        R.broke('C14.BND.3: escape test of the string decoder not found')
+        return
+    start_edges = []
+    for bid in f.reachable_blocks():
+        for e in f.out[bid]:
+            r = e.rel()
+            if r and isinstance(r[0], dict) and r[0].get('k') == 'un' and r[0]['op'] == '*' and is_var(r[0]['e'], endv) and r[1] == '==' and const_of(r[2]) == 92:
+                # only the decode pass (its block stores into the buffer somewhere downstream before the loop step)
+                start_edges.append(e)
+
+    def hexidx(r):
+        l, op, rr = r
+        if isinstance(l, dict) and l.get('k') == 'bin' and l['op'] == '&' and l['l'].get('k') == 'idx' and is_var(l['l']['base'], 'char_types') and const_of(rr) == 0:
+            for x in walk(l['l']['index']):
+                if x.get('k') == 'idx' and is_var(x['base'], endv) and const_of(x['index']) is not None:
+                    return const_of(x['index']), op == '!='
+        return None
+    n = 0
+    for e0 in start_edges:
+        # is this the decode pass?  it must reach a store into a buffer before the scan variable's loop step
+        resets = [t.bid for t in f.stores() if t.ev['k'] == 'store' and is_var(t.ev.get('lhs'), endv) and t.ev.get('op') == '=']
+        region = f.reach([e0.dst], cut_blocks=resets)
+        if not any(t.ev['k'] == 'store' and t.ev['lhs'].get('k') == 'idx' and on_path(t.ev['lhs'], 'vec') for b in region for t in f.block_sites(b)):
+            continue
+
+        def on_event(st, s):
+            adv, hx, done = st
+            ev = s.ev
+            if done:
+                return st
+            if ev['k'] == 'store' and is_var(ev.get('lhs'), endv):
+                if ev.get('op') == '++':
+                    return (adv + 1, hx, done)
+                if ev.get('op') == '+=' and const_of(ev.get('rhs')) is not None:
+                    return (adv + const_of(ev['rhs']), hx, done)
+                return (99, hx, done)
+            return st
+
+        def on_edge(st, e):
+            adv, hx, done = st
+            if done:
+                return st
+            r = e.rel()
+            if r:
+                h = hexidx(r)
+                if h and h[1]:
+                    hx = tuple(sorted(set(hx) | {h[0] - adv}))   # offset relative to the backslash
+                # back at the loop test (*end != '"'): the escape is over
+                if isinstance(r[0], dict) and r[0].get('k') == 'un' and r[0]['op'] == '*' and is_var(r[0]['e'], endv) and const_of(r[2]) == 34:
+                    return (adv, hx, True)
+            return (adv, hx, done)
+        # run from the escape edge
+        states = {(0, (), False)}
+        seen = set()
+        work = [(e0.dst, (0, (), False))]
+        final = set()
+        while work:
+            b, st = work.pop()
+            if (b, st) in seen:
+                continue
+            seen.add((b, st))
+            for s in f.block_sites(b):
+                st = on_event(st, s)
+            for e in f.out[b]:
+                st2 = on_edge(st, e)
+                if st2[2]:
+                    final.add(st2)
+                else:
+                    work.append((e.dst, st2))
+        bad = []
+        for adv, hx, done in final:
+            # adv includes the loop's own ++end: the escape itself may use 2 (backslash and escaped char)
+            proven = 0
+            k = 2
+            while k in hx:
+                proven += 1
+                k += 1
+            if adv > 2 + proven:
+                bad.append((adv, hx))
+        n += 1
+        R.ob('C14.BND.3', bool(final) and not bad, P.relloc((f.blocks[e0.src].get('term') or {}).get('loc', '?')),
+             'an escape never skips more bytes than the backslash, the escaped character and the bytes proven to be hex digits%s'
+             % ('' if not bad else ' (a path advances %d with hex-proven offsets %s: the closing quote can be skipped)' % (bad[0][0], list(bad[0][1]))), key='escape-advance')
+        R.obligations[-1]['function'] = f.name
+    R.floor('C14.BND.3', 1)
+
+
+def context_init(P, R):
+    """MPT.2b: whatever conf_read frees at the end was set up in this call: on every path from the entry to
+    the release of the file buffer, the parse context was cleared or the buffer pointer assigned."""
+    cr = P.need_fn('conf_read')
+    frees = [s for s in cr.calls('free') if any(is_field(x, 'data', 'conf_parse') for x in walk(s.ev['args'][0]))]
+    for s in frees:
+        def inits(t):
+            ev = t.ev
+            if ev['k'] == 'call' and ev.get('callee') == 'memset' and ev['args'] and ev['args'][0].get('k') == 'un' and ev['args'][0]['op'] == '&' and const_of(ev['args'][1]) == 0 \
+                    and ev['args'][0].get('size') and const_of(ev['args'][2]) == ev['args'][0]['size']:
+                return True
+            return False
+        p = cr.path_avoiding(None, inits, target=s.bid, from_entry=True)
+        R.ob('C14.MPT.2', p is None, s, 'the parse context (and with it the buffer pointer freed here) is cleared at the start of every call, so a load that fails before reading the file frees nothing stale', key='context-cleared')
+    statics = [t for t in cr.sites() if t.ev['k'] == 'decl' and t.ev.get('static') and 'conf_parse' in t.ev.get('t', '')]
+    R.ob('C14.MPT.2', not statics or all(cr.path_avoiding(None, lambda t: t.ev['k'] == 'call' and t.ev.get('callee') == 'memset', target=f2.bid, from_entry=True) is None for f2 in frees), cr,
+         'the parse context does not carry state from one load to the next', key='context-not-static', nontrivial=False)
+
+
 def run(P, R, tier):
+    decoder_advance(P, R)
+    context_init(P, R)
     pc = phase_separation(P, R)
     merge_position(P, R, pc)
     ownership(P, R)
